@@ -449,7 +449,8 @@ func init() {
 				out = append(out, c04Scope(spPair("B2", e, 3, 3, 3, 4), all), c04Scope(spTwo(e, 3, 3, 4), all))
 			}
 			out = append(out, c04Scope(spRects(enum.Eax, 4, 5), all), c04Scope(spNest(enum.Eax, 4, true, 5), nestOps), c04Scope(spNest(enum.Eax, 5, false, 6), nestOps), c04Scope(spShapes(enum.Eax, 5, 6), nestOps), c04Scope(spBars(17, false, 6), nestOps), c04Scope(spBars(13, true, 6), nestOps),
-				c04Scope(spBitmap(4, false, false, 1, 6), nestOps), c04Scope(spBitmap(3, false, true, 1, 6), all), c04Scope(spBitmap(4, true, false, 1, 7), nestOps), c04Scope(spBitmap(4, true, true, 1009, 7), all), c04Scope(spBitmap(5, false, false, 7, 7), nestOps), c04Scope(spDoubled(enum.Eax, 4, 1, 6), nestOps), c04Scope(spHardInputs(), all))
+				c04Scope(spBitmap(4, false, false, 1, 6), nestOps), c04Scope(spBitmap(3, false, true, 1, 6), all), c04Scope(spBitmap(4, true, false, 1, 7), nestOps), c04Scope(spBitmap(4, true, true, 1009, 7), all), c04Scope(spBitmap(5, false, false, 7, 7), nestOps), c04Scope(spDoubled(enum.Eax, 4, 1, 6), nestOps), c04Scope(spHardInputs(), all),
+				c04Scope(spThree(enum.Eax, 7, 6), all), c04Scope(spThree(enum.Ean, 7, 6), all), c04Scope(spThree(enum.Esh, 7, 6), all), c04Scope(spTwoLevel(7, 3, 6), all))
 			return out
 		},
 	})
